@@ -306,6 +306,14 @@ Definition dst_stats (s : dst) : option stats :=
 Definition dst_cancel (s : dst) : option cancel_reason :=
   match s with Live d => d_cancel d | Panicked => None end.
 
+(* number of shutdown signals in a history (the third one panics) *)
+Fixpoint shutdown_count (h : list devent) : nat :=
+  match h with
+  | [] => 0
+  | SigShutdown _ :: r => S (shutdown_count r)
+  | _ :: r => shutdown_count r
+  end.
+
 (* classification of emitted events used by the C10 statements *)
 Definition is_start_event (e : revent) : bool :=
   match e with
